@@ -65,7 +65,7 @@ def run(rep, tier, seed):
     ncat = len(catalogue.models())
     n = 24 if quick else 400
     jobs = [(seed % 100000 + 2, i, {"catalogue": i, "quick": quick}) for i in range(ncat)]
-    jobs += [(seed % 100000 + 2, 100 + i, {"quick": quick, "cython": (i % 12 == 0), "extend": 0.35}) for i in range(n)]
+    jobs += [(seed % 100000 + 2, 100 + i, {"quick": quick, "cython": (i % 12 == 0), "extend": 0.5}) for i in range(n)]
     results = mc.pool_map(dc.det_worker, jobs)
     stiff = mc.pool_map(dc.stiff_worker, [(100.0, seed), (300.0, seed)])
     rep.cov["stiff_instances"] = {r["name"]: {"calls": r["calls"], "refused_with_IntegrationError": r["refused"],
